@@ -241,7 +241,17 @@ class CFG:
         (value patterns compare with ==, singletons with `is`, class patterns with isinstance)"""
         pre: list[ast.stmt] = []
         subj: ast.expr = st.subject
-        if not isinstance(subj, (ast.Name, ast.Attribute)) or has_events(subj):
+        def simple(x: ast.expr) -> bool:
+            # re-evaluating these in every case test is the same as evaluating them once
+            if isinstance(x, (ast.Name, ast.Constant)):
+                return True
+            if isinstance(x, ast.Attribute):
+                return simple(x.value)
+            if isinstance(x, ast.Tuple):
+                return all(simple(y) for y in x.elts)
+            return isinstance(x, ast.Call) and isinstance(x.func, ast.Name) and x.func.id == "len" and len(x.args) == 1 and not x.keywords and isinstance(x.args[0], ast.Name)
+
+        if not simple(subj):
             tmp = ast.Name(id=f"__match_{st.lineno}", ctx=ast.Store())
             pre.append(ast.copy_location(ast.Assign(targets=[tmp], value=subj, lineno=st.lineno), st))
             subj = ast.Name(id=tmp.id, ctx=ast.Load())
@@ -344,7 +354,54 @@ class CFG:
         self._cur_ctx = saved_ctx
         return ends
 
+    def _first_match(self, st: ast.stmt) -> list[ast.stmt] | None:
+        """`x = next((E for T in TABLE if C), D)` / `return next(...)` with TABLE a name, E and C without effects:
+        the search loop it abbreviates - `x = D; for T in TABLE: if C: x = E; break` (first match wins)"""
+        val = st.value if isinstance(st, (ast.Assign, ast.AnnAssign, ast.Return)) else None
+        if not (isinstance(val, ast.Call) and isinstance(val.func, ast.Name) and val.func.id == "next" and len(val.args) == 2 and not val.keywords and isinstance(val.args[0], ast.GeneratorExp)):
+            return None
+        g = val.args[0]
+        if len(g.generators) != 1 or g.generators[0].is_async or not isinstance(g.generators[0].iter, ast.Name) or has_events(val.args[1]):
+            return None
+        gen = g.generators[0]
+
+        def effect_free(e: ast.AST) -> bool:
+            for n in ast.walk(e):
+                if isinstance(n, (ast.Await, ast.NamedExpr, ast.Yield, ast.YieldFrom, ast.Lambda, ast.GeneratorExp, ast.ListComp, ast.SetComp, ast.DictComp)):
+                    return False
+                if isinstance(n, ast.Call) and not (isinstance(n.func, ast.Name) and n.func.id in ("isinstance", "len", "str", "int", "type", "callable", "getattr", "hasattr")) and not (isinstance(n.func, ast.Attribute) and n.func.attr in ("startswith", "endswith", "lower", "upper", "strip", "get")):
+                    return False
+            return True
+
+        if not effect_free(g.elt) or not all(effect_free(c) for c in gen.ifs):
+            return None
+        if isinstance(st, ast.Assign) and len(st.targets) == 1 and isinstance(st.targets[0], ast.Name):
+            tgt = st.targets[0].id
+        elif isinstance(st, ast.AnnAssign) and isinstance(st.target, ast.Name):
+            tgt = st.target.id
+        elif isinstance(st, ast.Return):
+            tgt = f"__first_{st.lineno}_{st.col_offset}"
+            self.prog.func_locals(self.func)[tgt] = frozenset({("ext", "object")})
+        else:
+            return None
+        name = lambda ctx: ast.Name(id=tgt, ctx=ctx)  # noqa: E731
+        hit: list[ast.stmt] = [ast.Assign(targets=[name(ast.Store())], value=g.elt), ast.Break()]
+        test: ast.expr = gen.ifs[0] if len(gen.ifs) == 1 else (ast.BoolOp(op=ast.And(), values=list(gen.ifs)) if gen.ifs else ast.Constant(value=True))
+        loop = ast.For(target=gen.target, iter=gen.iter, body=[ast.If(test=test, body=hit, orelse=[])] if gen.ifs else hit, orelse=[])
+        out: list[ast.stmt] = [ast.Assign(targets=[name(ast.Store())], value=val.args[1]), loop]
+        if isinstance(st, ast.Return):
+            out.append(ast.Return(value=name(ast.Load())))
+        for n in out:
+            for sub in ast.walk(n):
+                if getattr(sub, "lineno", None) is None:
+                    ast.copy_location(sub, st)
+            ast.fix_missing_locations(n)
+        return out
+
     def _stmt(self, st: ast.stmt, ends: list[End]) -> list[End]:
+        fm = self._first_match(st)
+        if fm is not None:
+            return self._stmts(fm, ends)
         if isinstance(st, ast.Expr):
             if isinstance(st.value, ast.Constant):
                 return ends
